@@ -146,7 +146,7 @@ def run(ctx):
     total_exh = len(hists)
     if total_exh == 0:
         raise vlib.Inconclusive('no maximal histories in the Gen dump')
-    budget = 260 if quick else 9000
+    budget = 260 if quick else 3000
     # half of the budget goes to the histories with an effective delete and a reopen / refused write, the rest is a plain sample
     top = [i for i in range(total_exh) if _interesting(hists[i]) >= 3]
     chosen_idx = set(vlib.sample_list(ctx.rng, top, budget // 2))
@@ -159,8 +159,8 @@ def run(ctx):
     # scenario class of REQUIRED is present `quota` times, the rest is filled with the other behaviours in pool order.
     sc = _consts('StoreLifecycle.Sim.cfg', ctx)
     pool_n = 600 if quick else 6000
-    sim_budget = 150 if quick else 3000
-    quota = 10 if quick else 150
+    sim_budget = 150 if quick else 1200
+    quota = 10 if quick else 100
     sim = ctx.tlc('StoreLifecycle', 'StoreLifecycle.Sim.cfg', timeout=1500, simulate={'num': max(1, pool_n // workers)},
                   depth=2 * sc['MaxOps'] + 1, count=False, workers=workers)
     if sim.timed_out or not sim.ok:
@@ -251,5 +251,5 @@ META = {
     'note': 'Trusted: TLC, the driver\'s observation code (cursor reads, IndexSet listings, series file iteration, directory walk), '
             'the seeded concretisation table. Sequential calls only.',
     'technique': 'TLA+ spec (StoreLifecycle.tla) + TLC exhaustive/simulation + replay of TLC histories on a real tsdb.Store',
-    'quick_s': 150, 'thorough_s': 1200,
+    'quick_s': 100, 'thorough_s': 1100,
 }
